@@ -31,11 +31,29 @@ def bracket (s : Str) : Str := if s.contains '*' then '(' :: (s ++ [')']) else s
 /-- mocker.go:359 `objName`: `fmt.Sprintf("%s.%s.%s", pkgName, structName, methodName)` -/
 def objName (pkg sn m : Str) : Str := pkg ++ '.' :: (sn ++ '.' :: m)
 
+/-! The linker does not use the import path verbatim as the prefix of a function name: `cmd/internal/objabi.PathToPrefix`
+    escapes `.` in the LAST path element and a few special characters everywhere (`gopkg.in/yaml.v2` ↦ `gopkg.in/yaml%2ev2`).
+    reflect.go `symbolPkgPath` (after the repair F28) is the same function; transcribed here for ASCII paths. -/
+
+def hexDigit (n : Nat) : Char := if n < 10 then Char.ofNat (48 + n) else Char.ofNat (87 + n)
+
+def escChar (inLast : Bool) (c : Char) : Str :=
+  if c.toNat ≤ 32 || (c == '.' && inLast) || c == '%' || c == '"' || c.toNat ≥ 127
+  then ['%', hexDigit (c.toNat / 16 % 16), hexDigit (c.toNat % 16)] else [c]
+
+/-- reflect.go `symbolPkgPath` = objabi.PathToPrefix -/
+def symPrefix (pkg : Str) : Str :=
+  let r := pkg.reverse
+  let last := (r.takeWhile (· != '/')).reverse
+  let dir := (r.dropWhile (· != '/')).reverse
+  dir.flatMap (escChar false) ++ last.flatMap (escChar true)
+
 /-- SPEC (Go linker, trusted, validated on every run against `go tool nm`): receiver part of a method symbol -/
 def recvName (T : Str) (ptr : Bool) : Str := if ptr then '(' :: '*' :: (T ++ [')']) else T
 
-/-- SPEC: the symbol of method `m` with receiver `T` / `*T` declared in package `pkg`: `pkg.T.m`, `pkg.(*T).m` -/
-def linkName (pkg T : Str) (ptr : Bool) (m : Str) : Str := objName pkg (recvName T ptr) m
+/-- SPEC: the symbol of method `m` with receiver `T` / `*T` declared in the package whose symbol prefix is `sp`
+    (`sp = symPrefix importPath`): `sp.T.m`, `sp.(*T).m` -/
+def linkName (sp T : Str) (ptr : Bool) (m : Str) : Str := objName sp (recvName T ptr) m
 
 /-- first exact match in table order (`gosym.Table.LookupFunc`, table.go: `if f.Name == name`) -/
 def symIndex : List Str → Str → Option Nat
@@ -63,7 +81,7 @@ structure Entry where
 
 /-- the code a direct call `x.m(..)` enters: the method itself, for an instantiated generic type the shape body -/
 def Entry.callSym (e : Entry) : Str :=
-  linkName e.pkg (if e.shape.isEmpty then e.name else e.shape) e.ptr e.m
+  linkName (symPrefix e.pkg) (if e.shape.isEmpty then e.name else e.shape) e.ptr e.m
 
 def isExported : Str → Bool
   | c :: _ => c.isUpper
@@ -76,18 +94,23 @@ def methodOf (entries : List Entry) (t : Ty) (m : Str) : Option Entry :=
 
 /-- monkey.go:100 + patch.go:67: the symbol that `Struct(inst).Method(m).Apply` patches.
     Matching receiver kinds: the method (generic: the shape body found behind the wrapper by `GetInnerFunc`).
-    Value method through a pointer instance (README: don't): the `(*T).m` pointer wrapper. -/
+    Value method through a pointer instance (known finding C06-K2): the `(*T).m` pointer wrapper; for an instantiated
+    generic type the first callee of that wrapper, which is the value wrapper `pkg.T[..].m` — in both cases code that
+    direct calls never enter. -/
 def resolveSM (entries : List Entry) (t : Ty) (m : Str) : Except Str Str :=
   if !isExported m then .error "nomethod".toList else
   match methodOf entries t m with
   | none => .error "nomethod".toList
-  | some e => if e.ptr = t.ptr then .ok e.callSym else .ok (linkName t.pkg t.name true m)
+  | some e =>
+    if e.ptr = t.ptr then .ok e.callSym
+    else if e.shape.isEmpty then .ok (linkName (symPrefix t.pkg) t.name true m)
+    else .ok (linkName (symPrefix t.pkg) t.name false m)
 
 /-- mocker.go:215 `ExportMethod` + :359 `objName` -/
-def exportMethodName (t : Ty) (m : Str) : Str := objName t.pkg (bracket (typeName t.name t.ptr)) m
+def exportMethodName (t : Ty) (m : Str) : Str := objName (symPrefix t.pkg) (bracket (typeName t.name t.ptr)) m
 
 /-- builder.go:122 `ExportStruct(raw)` + cache.go:99 `Method(m)` + mocker.go:359 `objName` -/
-def exportStructName (pkg raw m : Str) : Str := objName pkg (bracket raw) m
+def exportStructName (pkg raw m : Str) : Str := objName (symPrefix pkg) (bracket raw) m
 
 /-! ## builder caches -/
 
@@ -148,7 +171,7 @@ def step (syms : List Str) (entries : List Entry) (s : BState) (k : Nat) : Step 
     applyAt syms { s with structs := r.1 } k (exportMethodName r.2 m)
   | .exportStruct pkg raw m =>
     let r := getOrCreate s.exports (pkg, raw) (pkg, bracket raw)
-    applyAt syms { s with exports := r.1 } k (objName r.2.1 r.2.2 m)
+    applyAt syms { s with exports := r.1 } k (objName (symPrefix r.2.1) r.2.2 m)
   | .reset => ({ s with patched := [] }, .ok)
 
 /-- run a history; callbacks are numbered by step position starting at `k` -/
@@ -169,17 +192,30 @@ def behavOf (syms : List Str) : List (Nat × Nat) → Entry → Option Nat
   | [], _ => none
   | (j, k) :: rest, e => if syms[j]? = some e.callSym then some k else behavOf syms rest e
 
-/-- what a caller observes: `orig` — the method's own body ran on (recv, args); `mock k recv args` — callback `k`
-    was entered with the caller's receiver and arguments in place (C01/C15: the jump at the entry preserves all
-    argument registers and the stack); for a shape body the dictionary is the first ordinary argument. -/
-inductive Obs (R A : Type)
-  | orig (recv : R) (args : List A)
-  | mock (k : Nat) (recv : R) (args : List A)
+/-- the values in the argument positions of a call when it enters the code of `e` (ABI, observed not proved): receiver
+    first; a shape body carries the hidden dictionary directly behind the receiver -/
+def entryArgs {A : Type} (e : Entry) (dict recv : A) (args : List A) : List A :=
+  if e.shape.isEmpty then recv :: args else recv :: dict :: args
 
-def callObs {R A : Type} (syms : List Str) (s : BState) (e : Entry) (dict : A) (recv : R) (args : List A) : Obs R A :=
+/-- internal/patch/patch.go `adaptToShapeFunc` (fix 79126f8): the replacement installed at a shape body is a
+    `reflect.MakeFunc` adapter with one extra word at `dictPos`; it forwards `args[:dictPos] ++ args[dictPos+1:]` -/
+def adapt {A : Type} (dictPos : Nat) (actual : List A) : List A := actual.take dictPos ++ actual.drop (dictPos + 1)
+
+/-- what the user's callback is called with -/
+def delivered {A : Type} (e : Entry) (dict recv : A) (args : List A) : List A :=
+  if e.shape.isEmpty then entryArgs e dict recv args      -- the jump enters the callback itself (C01/C15: registers and stack kept)
+  else adapt 1 (entryArgs e dict recv args)               -- method of a generic type: dictPos = 1
+
+/-- what a caller observes: `orig` — the method's own body ran on the call's values; `mock k vs` — callback `k` was
+    called with the values `vs` -/
+inductive Obs (A : Type)
+  | orig (vs : List A)
+  | mock (k : Nat) (vs : List A)
+
+def callObs {A : Type} (syms : List Str) (s : BState) (e : Entry) (dict recv : A) (args : List A) : Obs A :=
   match behavOf syms s.patched e with
-  | none => .orig recv args
-  | some k => .mock k recv (if e.shape.isEmpty then args else dict :: args)
+  | none => .orig (recv :: args)
+  | some k => .mock k (delivered e dict recv args)
 
 /-! ## specification vocabulary (used by the theorems, not by the driver) -/
 
